@@ -99,8 +99,12 @@ func (v *Verifier) discharge(o *Obligation, dir string, timeoutMs int, all bool)
 	}
 	var outs []string
 	results := map[string]string{}
-	for _, sn := range order {
-		res, out, ms := runSolver(context.Background(), solvers[sn], file, timeoutMs)
+	for i, sn := range order {
+		tmo := timeoutMs
+		if i > 0 && !all && tmo > 10000 {
+			tmo = 10000 // fall-back solvers get a shorter budget in the quick tier
+		}
+		res, out, ms := runSolver(context.Background(), solvers[sn], file, tmo)
 		o.Ms += ms
 		outs = append(outs, fmt.Sprintf("%s: %s (%d ms)", sn, res, ms))
 		if res == "error" {
